@@ -98,7 +98,7 @@ def locate(model):
 
 class CS(BaseState):
     __slots__ = ('evals', 'named', 'stored', 'rendered', 'neg', 'trace',
-                 'cur_exc')
+                 'cur_exc', 'undef')
 
     def __init__(self):
         self.evals = 0
@@ -108,10 +108,11 @@ class CS(BaseState):
         self.neg = frozenset()     # variables holding a negative constant
         self.trace = ()
         self.cur_exc = None
+        self.undef = False         # the name lookup raised KeyError
 
     def key(self):
         return (self.evals, self.named, self.stored, self.rendered,
-                self.neg, self.cur_exc)
+                self.neg, self.cur_exc, self.undef)
 
     def copy(self):
         n = CS()
@@ -119,6 +120,7 @@ class CS(BaseState):
             self.evals, self.named, self.stored, self.rendered, self.neg
         n.trace = self.trace
         n.cur_exc = self.cur_exc
+        n.undef = self.undef
         return n
 
 
@@ -127,6 +129,7 @@ class CondDomain(Domain):
         self.model = model
         self.a = a
         self.problems = []      # (node, message)
+        self.undef_renders = []  # bodies rendered for an undefined name
         self.body_renders = 0
         self.counters = set()   # loop counters (initialised >= 0, only +=)
         fi = a['fi']
@@ -186,6 +189,8 @@ class CondDomain(Domain):
             if self.is_render(n):
                 self.body_renders += 1
                 ns = ns.copy()
+                if ns.undef:
+                    self.undef_renders.append(n)
                 if ns.evals != 1:
                     self.problems.append((
                         n, f'a body is rendered on a path that evaluated '
@@ -226,6 +231,8 @@ class CondDomain(Domain):
         # a failed lookup still was the one evaluation of this iteration
         ns = st.copy()
         ns.evals += 1
+        if exc == 'KeyError':
+            ns.undef = True
         return ns
 
     def branch(self, test, st):
@@ -414,28 +421,20 @@ def rule_keyerror(model):
                 r.finding(fi.where, f'except {hn}', 'a KeyError for a '
                           'different key (raised inside the looked-up '
                           'value) is not re-raised', node=h, ctx=fi)
-            # the variable the lookup assigns gets a false constant
-            tv = None
-            for x in ast.walk(t.body[0]):
-                if isinstance(x, ast.Assign) and \
-                        isinstance(x.targets[0], ast.Name):
-                    tv = x.targets[0].id
-            # ... or a variable that otherwise takes the looked-up value
-            # (result = value after the try)
-            tvs = {tv}
-            for x in ast.walk(a['loop']):
-                if isinstance(x, ast.Assign) and len(x.targets) == 1 and \
-                        isinstance(x.targets[0], ast.Name) and \
-                        isinstance(x.value, ast.Name) and x.value.id == tv:
-                    tvs.add(x.targets[0].id)
-            falsy = [x for x in ast.walk(h) if isinstance(x, ast.Assign)
-                     and isinstance(x.targets[0], ast.Name)
-                     and x.targets[0].id in tvs
-                     and isinstance(x.value, ast.Constant)
-                     and not x.value.value]
-            if not falsy:
-                r.finding(fi.where, f'except {hn}', 'an undefined name does '
-                          'not yield a false condition', node=h, ctx=fi)
+    # an undefined name never selects its body: no path of one loop round
+    # through the KeyError handler reaches the rendering of a body
+    dom = CondDomain(model, a)
+    Interp(dom).block(a['loop'].body, CS())
+    r.instance(fi.where, 'paths through the KeyError handler',
+               f'{len(dom.undef_renders)} render a body')
+    if dom.undef_renders:
+        r.finding(fi.where, 'except KeyError', 'an undefined name does '
+                  'not yield a false condition', node=dom.undef_renders[0],
+                  ctx=fi)
+    for t in tries:
+        if not any(CondDomain(model, a).is_eval(x) for s in t.body
+                   for x in ast.walk(s)):
+            continue
         if not t.handlers:
             r.finding(fi.where, 'try', 'no KeyError handler', node=t,
                       ctx=fi)
@@ -563,6 +562,202 @@ class _ShorthandDomain(Domain):
         return [], st
 
 
+# ------------------------------------------------- compiled tuple shapes
+# DFA of the language the conditional interpreter reads after the opcode:
+# condition/body pairs, then an optional else body.   CB(CB)*B?
+_S0, _S1, _S2, _S3, _ERR = 'start', 'after-condition', 'pairs', 'else', 'ERR'
+_STEP = {(_S0, 'C'): _S1, (_S1, 'B'): _S2, (_S1, 'N'): _S2,
+         (_S2, 'C'): _S1, (_S2, 'B'): _S3}
+
+
+def _feed(states, kinds):
+    out = set(states)
+    for k in kinds:
+        out = {_STEP.get((s, k), _ERR) for s in out}
+    return frozenset(out)
+
+
+class _ShS(BaseState):
+    def __init__(self, env=None, done=frozenset()):
+        self.env = dict(env or {})
+        self.done = done          # loops whose body ran at least once
+
+    def key(self):
+        return (tuple(sorted(self.env.items())), self.done)
+
+    def copy(self):
+        n = _ShS(self.env, self.done)
+        n.trace = self.trace
+        return n
+
+
+class _ShapeDomain(Domain):
+    """Abstract value of the sequence a compiler assembles for
+    simple_form, however it is assembled (list + append, pairs flattened
+    later, tuple concatenation, star display):
+      ('L', kinds)          a literal display without opcode, e.g. 'CB'
+      ('S', op, states)     a flat sequence (after opcode op) whose element
+                            kinds drive the DFA above into `states`
+      ('P', nonempty)       a list of (condition, body) pairs
+    """
+
+    def __init__(self, model, fi):
+        self.model = model
+        self.fi = fi
+        self.forms = []       # (node, value)
+
+    def kinds(self, elts):
+        return ''.join(_kind(e, self.fi, self.model) for e in elts)
+
+    def to_s(self, v):
+        if v is None:
+            return ('S', None, frozenset({_ERR}))
+        if v[0] == 'L':
+            return ('S', None, _feed({_S0}, v[1]))
+        if v[0] == 'P':
+            return ('S', None, frozenset({_S2} | (set() if v[1]
+                                                  else {_S0})))
+        return v
+
+    def concat(self, a, b):
+        if a is None or b is None:
+            return None
+        if a[0] == 'L' and b[0] == 'L' and len(a[1]) + len(b[1]) <= 6:
+            return ('L', a[1] + b[1])
+        sa = self.to_s(a)
+        if b[0] == 'L':
+            return ('S', sa[1], _feed(sa[2], b[1]))
+        if b[0] == 'P':
+            st = _feed(sa[2], 'CB')
+            return ('S', sa[1], st if b[1] else st | sa[2])
+        if sa[2] == frozenset({_S0}):
+            return ('S', sa[1] or b[1], b[2])
+        return ('S', sa[1], frozenset({_ERR}))
+
+    def ev(self, e, st):
+        if isinstance(e, ast.Name):
+            return st.env.get(e.id)
+        if isinstance(e, (ast.Tuple, ast.List)):
+            cur = ('L', '')
+            elts = list(e.elts)
+            op = None
+            if elts and isinstance(elts[0], ast.Constant) and \
+                    isinstance(elts[0].value, str) and \
+                    len(elts[0].value) == 1:
+                op = elts[0].value
+                elts = elts[1:]
+                cur = ('S', op, frozenset({_S0}))
+            if elts and all(isinstance(x, ast.Tuple) and
+                            self.kinds(x.elts) == 'CB' for x in elts) \
+                    and op is None:
+                return ('P', True)
+            for x in elts:
+                if isinstance(x, ast.Starred):
+                    cur = self.concat(cur, self.ev(x.value, st))
+                else:
+                    cur = self.concat(cur, ('L', self.kinds([x])))
+            return cur
+        if isinstance(e, ast.Call) and isinstance(e.func, ast.Name) and \
+                e.func.id in ('tuple', 'list') and len(e.args) == 1:
+            return self.ev(e.args[0], st)
+        if isinstance(e, ast.BinOp) and isinstance(e.op, ast.Add):
+            return self.concat(self.ev(e.left, st), self.ev(e.right, st))
+        return None
+
+    def raises(self, node, st):
+        return []
+
+    def effects(self, stmt, st):
+        if isinstance(stmt, ast.Assign) and len(stmt.targets) == 1:
+            t = stmt.targets[0]
+            v = self.ev(stmt.value, st)
+            if isinstance(t, ast.Name):
+                st = st.copy()
+                if v is None:
+                    st.env.pop(t.id, None)
+                else:
+                    st.env[t.id] = v
+            elif isinstance(t, ast.Attribute) and t.attr == 'simple_form':
+                self.forms.append((stmt, v))
+            return st
+        if isinstance(stmt, ast.AugAssign) and isinstance(
+                stmt.op, ast.Add) and isinstance(stmt.target, ast.Name):
+            v = self.concat(st.env.get(stmt.target.id),
+                            self.ev(stmt.value, st))
+            st = st.copy()
+            if v is None:
+                st.env.pop(stmt.target.id, None)
+            else:
+                st.env[stmt.target.id] = v
+            return st
+        if isinstance(stmt, ast.Expr) and isinstance(stmt.value, ast.Call) \
+                and isinstance(stmt.value.func, ast.Attribute) and \
+                isinstance(stmt.value.func.value, ast.Name) and \
+                stmt.value.args:
+            c = stmt.value
+            name = c.func.value.id
+            cur = st.env.get(name)
+            if cur is None:
+                return st
+            a = c.args[0]
+            new = cur
+            if c.func.attr == 'append':
+                if isinstance(a, ast.Tuple) and \
+                        self.kinds(a.elts) == 'CB' and (
+                            cur[0] == 'P' or cur == ('L', '')):
+                    new = ('P', True)
+                elif cur[0] == 'P':
+                    new = None
+                else:
+                    new = self.concat(cur, ('L', self.kinds([a])))
+            elif c.func.attr == 'extend':
+                new = self.concat(cur, self.ev(a, st)) \
+                    if cur[0] != 'P' else None
+            else:
+                return st
+            st = st.copy()
+            if new is None:
+                st.env.pop(name, None)
+            else:
+                st.env[name] = new
+        return st
+
+    def for_target(self, node, st):
+        ns = st.copy()
+        it = self.ev(node.iter, st)
+        for x in ast.walk(node.target):
+            if isinstance(x, ast.Name):
+                ns.env.pop(x.id, None)
+        if it is not None and it[0] == 'P' and \
+                isinstance(node.target, ast.Name):
+            ns.env[node.target.id] = ('L', 'CB')
+        ns.done = ns.done | {id(node)}
+        return ns
+
+    def for_may_skip(self, node, st):
+        it = self.ev(node.iter, st)
+        if it is not None and it[0] == 'P' and it[1] and \
+                id(node) not in st.done:
+            return False
+        return True
+
+
+def dom_to_s(v):
+    return _ShapeDomain(None, None).to_s(v)
+
+
+def compiled_forms(model, fi):
+    dom = _ShapeDomain(model, fi)
+    it = Interp(dom, 50000)
+    it.run(fi.node, _ShS())
+    if it.overflow:
+        raise AnalysisError(f'C09.R4: state budget in {fi.where}')
+    out = {}
+    for node, v in dom.forms:
+        out.setdefault(id(node), (node, set()))[1].add(v)
+    return list(out.values())
+
+
 def rule_shapes(model):
     r = RuleResult('C09.R4', 'compiled tuple shapes of if/unless/call match '
                    'the interpreter (odd positions conditions, even '
@@ -609,29 +804,27 @@ def rule_shapes(model):
                     elif op == 'v':
                         if kinds not in ('C', 'CX', 'X', 'XX'):
                             pass
-                elif isinstance(v, ast.BinOp):
-                    # ('i',) + tuple(sections)
-                    ok, head = model.fold(v.left, fi)
-                    if not ok and isinstance(v.left, ast.Tuple) and \
-                            v.left.elts and \
-                            isinstance(v.left.elts[0], ast.Constant) and \
-                            v.left.elts[0].value != 'i':
-                        # ('v', target) + quoting: opcode known, operands not
-                        produced.add(v.left.elts[0].value)
-                        r.instance(fi.where, v,
-                                   f'{v.left.elts[0].value}:(open)')
-                        continue
-                    if ok and isinstance(head, tuple) and head:
-                        produced.add(head[0])
-                        seq = _list_sequence(model, fi, v.right)
-                        r.instance(fi.where, v, f'{head[0]}:{seq}')
-                        import re as _re
-                        if seq is None or not _re.fullmatch(
-                                r'CB(\(CB\)\*)?(B\?)?', seq):
-                            r.finding(fi.where, v, 'if/elif/else compiled '
-                                      f'as {seq!r}, expected condition/body '
-                                      'pairs followed by an optional else '
-                                      'body', node=v, ctx=fi)
+                else:
+                    # assembled piecewise: abstract interpretation of the
+                    # compiler over the shape domain
+                    for node, vals in compiled_forms(model, fi):
+                        if node is not n:
+                            continue
+                        for val in sorted(vals, key=repr):
+                            val = dom_to_s(val)
+                            if val[1] is None:
+                                r.instance(fi.where, n.value, '(open)')
+                                continue
+                            produced.add(val[1])
+                            desc = '/'.join(sorted(val[2]))
+                            r.instance(fi.where, n.value, f'{val[1]}:{desc}')
+                            if val[1] == 'i' and not val[2] <= {_S2, _S3}:
+                                r.finding(fi.where, n.value, 'if/elif/else '
+                                          f'compiled as a sequence ending '
+                                          f'in state {desc!r}, expected '
+                                          'condition/body pairs followed by '
+                                          'an optional else body',
+                                          node=n.value, ctx=fi)
     # the three conditional commands are all compiled to the one
     # interpreter ('i' form): its handling of undefined names (false),
     # single evaluation and empty output is what the property describes
